@@ -73,10 +73,12 @@ def _engine(sock_obj):
 # ---- (1) dispatch ---------------------------------------------------------------------------------
 HSPEC = [("H1", (b"a", b"b")), ("H2", (b"b", b"c")), ("H3", (b"a", b"c", b"d"))]
 ALPHA = [b"a", b"b", b"c", b"d", b"z"]
+HSPEC_IDX = {name: i for i, (name, _) in enumerate(HSPEC)}
 
 
 def _dispatch_job(job):
-    order, raiser = job  # order: permutation of 0..2; raiser: (handler index or None, where)
+    order, raiser = job[:2]  # order: permutation of 0..2; raiser: (handler index or None, where)
+    timed = job[2] if len(job) > 2 else ()  # handler indices that are pending requests (timeout 5 s, no retries)
     n = 0
     bad = None
     for L in (1, 2, 3):
@@ -90,6 +92,11 @@ def _dispatch_job(job):
             for idx in order:
                 name, acc = HSPEC[idx]
                 h = TH(name, acc, raise_in=(raiser[1] if raiser[0] == idx else None), log=log)
+                if idx in timed:
+                    with stepped.patched_clock(w.clock):
+                        h._timeout_in_seconds = 5.0
+                        h._retry_count = 0
+                        h._reset_timeout()
                 hs.append(h)
                 sock.add_receive_handler(h)
             for k, d in enumerate(seq):
@@ -110,7 +117,7 @@ def _dispatch_job(job):
                         exp.append((h.name, d + bytes([k])))
                         break
             if log != exp:
-                bad = ("dispatch", f"handlers {[h.name for h in hs]} raiser {raiser} datagrams {[bytes(s) for s in seq]}: delivered {log}, expected {exp}")
+                bad = ("dispatch", f"handlers {[h.name + ('(pending request)' if HSPEC_IDX[h.name] in timed else '') for h in hs]} raiser {raiser} datagrams {[bytes(s) for s in seq]}: delivered {log}, expected {exp}")
                 break
             if e.mock.inbox:
                 bad = ("stalled", f"engine stopped consuming datagrams after an exception (raiser {raiser})")
@@ -188,12 +195,34 @@ def _retry_job(job):
 
 # ---- (3) send queue -----------------------------------------------------------------------------
 def _sendq_job(job):
-    times, traffic = job
+    times, traffic = job[:2]
+    pattern = job[2] if len(job) > 2 else None  # which handler OBJECT each queue_send call uses (None: all distinct)
     lib.reset_library()
     sock = GeckoUdpSocket()
     w, e = _engine(sock)
     t0 = w.now()
     parms = (PEER[0], PEER[1], SPA_ID, b"IOSx")
+    if pattern is not None:
+        objs = {}
+        for i, at in enumerate(times):
+            h = objs.setdefault(pattern[i], GeckoPacketProtocolHandler(content=b"MSG" + bytes([pattern[i]]), parms=parms))
+            w.at(t0 + at, (lambda h=h: sock.queue_send(h, parms)))
+        if traffic:
+            for j in range(400):
+                w.net.clock.t = t0
+                w.net.send(PEER, CLIENT, b"noise")
+                w.net.socks[CLIENT].inbox[-1] = (t0 + j * 0.0013, j, b"noise", PEER)
+        w.run_until(t0 + 1.5)
+        sent = [(t - t0, d) for (t, d, dest) in e.mock.sent if b"MSG" in d]
+        order = [unframe(d)[2][3] for t, d in sent]
+        exp = [pattern[i] for i in sorted(range(len(times)), key=lambda i: (times[i], i))]
+        if order != exp:
+            return ("fifo", f"queue_send calls at {times} with handler objects {list(pattern)} (the same object queued more than once): "
+                            f"wire carries {order}, expected one datagram per call: {exp}")
+        for (ta, _), (tb, _) in zip(sent, sent[1:]):
+            if tb - ta < 1.0 / 50 - 1e-9:
+                return ("throttle", f"enqueue times {times}: two sends {tb - ta:.4f}s apart (< 1/50 s)")
+        return None
     hs = []
     for i, at in enumerate(times):
         h = GeckoPacketProtocolHandler(content=b"MSG" + bytes([i]), parms=parms)
@@ -384,15 +413,20 @@ def run(ctx):
     # (1)
     raisers = [(None, None)] + [(i, w) for i in range(3) for w in ("can_handle", "handle", "handled")]
     jobs = [(order, r) for order in itertools.permutations(range(3)) for r in raisers]
+    # the same with every subset of the handlers being pending requests (a time-out set), no raiser
+    jobs += [(order, (None, None), tm) for order in itertools.permutations(range(3))
+             for k in (1, 2, 3) for tm in itertools.combinations(range(3), k)]
     for (n, bad), job in zip(core.pmap(ctx, _dispatch_job, jobs, chunksize=1), jobs):
         trans += n
         states.add(("dispatch", job))
         if bad:
-            ctx.violation(f"C20|{bad[0]}|raiser={job[1][1]}", bad[1], {"mode": "dispatch", "order": list(job[0]), "raiser": list(job[1])})
+            ctx.violation(f"C20|{bad[0]}|raiser={job[1][1]}", bad[1], {"mode": "dispatch", "order": list(job[0]), "raiser": list(job[1]), "timed": list(job[2]) if len(job) > 2 else []})
     ctx.log(f"(1) dispatch: {len(jobs)} handler configurations x 155 datagram sequences")
     # (2)
     jobs = [(T, N, k, d) for T in (0.01, 0.03, 0.05, 1.0) for N in range(4) for k in list(range(N + 1)) + [None]
             for d in ((0.002, 0.02, 0.045, 0.06) if k is not None else (0.0,))]
+    # longer budgets, unanswered or answered late in the budget (time-outs shorter than / comparable with a throttle slot)
+    jobs += [(T, N, k, 0.002) for T in (0.005, 0.01, 0.02, 0.03, 0.05) for N in (4, 5, 6, 8) for k in (None, N - 1, N)]
     for why, job in zip(core.pmap(ctx, _retry_job, jobs, chunksize=1), jobs):
         trans += 1
         states.add(("retry", job))
@@ -408,11 +442,18 @@ def run(ctx):
                 jobs.append((times, True))
                 if n <= 2:
                     jobs.append((times, False))
+    # the same handler OBJECT queued more than once (what a retry does, and what clients do with a cached request)
+    for pat in ((0, 0), (0, 1, 0), (0, 0, 0), (0, 1, 0, 1), (0, 1, 1, 0), (0, 0, 1, 1)):
+        for times in itertools.product((0.0, 0.01, 0.05), repeat=len(pat)):
+            if list(times) == sorted(times):
+                jobs.append((times, True, pat))
+                jobs.append((times, False, pat))
     for why, job in zip(core.pmap(ctx, _sendq_job, jobs, chunksize=4), jobs):
         trans += 1
         states.add(("sendq", job))
         if why:
-            ctx.violation(f"C20|sendq|{why[0]}", why[1], {"mode": "sendq", "times": list(job[0]), "traffic": job[1]})
+            ctx.violation(f"C20|sendq|{why[0]}", why[1], {"mode": "sendq", "times": list(job[0]), "traffic": job[1],
+                                                        "pattern": list(job[2]) if len(job) > 2 else None})
     ctx.log(f"(3) send queue: {len(jobs)} enqueue patterns")
     # (4)
     g = [0, 1, 2, 10] if ctx.quick else [0, 1, 2, 5, 9, 10]
@@ -462,7 +503,7 @@ def run(ctx):
 def replay(ctx, data):
     m = data["mode"]
     if m == "dispatch":
-        n, bad = _dispatch_job((tuple(data["order"]), tuple(data["raiser"])))
+        n, bad = _dispatch_job((tuple(data["order"]), tuple(data["raiser"]), tuple(data.get("timed", []))))
         if bad:
             ctx.violation(f"C20|{bad[0]}|raiser={data['raiser'][1]}", bad[1], data)
     elif m == "retry":
@@ -470,7 +511,7 @@ def replay(ctx, data):
         if why:
             ctx.violation(f"C20|retry|{why[0]}", why[1], data)
     elif m == "sendq":
-        why = _sendq_job((tuple(data["times"]), data["traffic"]))
+        why = _sendq_job((tuple(data["times"]), data["traffic"]) + ((tuple(data["pattern"]),) if data.get("pattern") else ()))
         if why:
             ctx.violation(f"C20|sendq|{why[0]}", why[1], data)
     elif m == "handshake":
